@@ -122,6 +122,16 @@ def main():
                     notes.append("proved under `requires` not demanded here: " + "; ".join("`%s`" % r for r in missing_req))
                 if c.get("pure") and not pc.get("pure"):
                     notes.append("assumed `pure`, proved contract has effects/ghost updates")
+                # frames: every heap the proof lets the function write must be in the frame the caller reckons with
+                def entries(cc):
+                    out = []
+                    for m in cc.get("modifies", []):
+                        out += [x.strip() for x in m.split(",") if x.strip()]
+                    return out
+                am, pm = entries(c), entries(pc)
+                wider = [x for x in pm if not x.startswith("ghost:") and x not in am and x.split(".")[0] not in am]
+                if wider:
+                    notes.append("proved frame has entries the assumed frame lacks: " + ", ".join("`%s`" % x for x in wider))
                 if notes:
                     n_diff += 1
                 rows.append((u["file"], u["name"], fname, v["name"], "; ".join(notes) if notes else "same or weaker clauses"))
